@@ -158,7 +158,8 @@ def formula_rule(rep, prog, nl_fn):
             if ob["failed"]:
                 rep.violation("R3", "get_position:panic-site:%s" % k.split("|")[2], "possible panic in get_position: %s %s" % (k, ob["detail"]))
         if ip.unsummarised:
-            rep.violation("AI", "unsummarised:%s" % sorted(ip.unsummarised)[0], "get_position analysis met unsummarised callees %s" % sorted(ip.unsummarised))
+            from .common import unsummarised_policy
+            unsummarised_policy(rep, ip.unsummarised, "get_position analysis")
         if p1 == p2:
             if somes:
                 rep.violation("R4", "equal-parity:position", "two reports of equal parity (%s) yield a position" % ("odd" if p1 else "even"))
@@ -201,6 +202,41 @@ def formula_rule(rep, prog, nl_fn):
             nl_eq = [g for g in guards if not g.get("float") and g["op"] in ("Eq",) and "NL(" in repr(g.get("a")) and "NL(" in repr(g.get("b"))]
             if not nl_eq:
                 rep.violation("R5", "guard:NL-equal", "a position is returned on a path that never requires NL(lat_even) == NL(lat_odd)")
+            else:
+                # the compared zone counts must be those of the two FINAL latitudes (after the southern-hemisphere wrap): one is the
+                # returned latitude, the other the other report's latitude in the variant its own `>= 270` test selected
+                by_name = {"NL(%s)" % T.show(e["arg_nf"], 4000): e["arg_nf"] for e in o.events if e["kind"] == "nl_call" and e.get("arg_nf") is not None}
+                g = nl_eq[-1]
+                ops = []
+                for side in ("a", "b"):
+                    r = repr(g.get(side))
+                    hit = [nf for nm, nf in by_name.items() if nm in r]
+                    ops.append(hit[0] if len(hit) == 1 else None)
+                other_par = "even" if p2 else "odd"
+                bad = None
+                if None in ops:
+                    bad = "its operands are not both NL(latitude) values"
+                elif nlat not in ops:
+                    bad = "neither operand is NL of the returned latitude (the zone count is taken before the `>= 270` wrap or from another value)"
+                else:
+                    oth = ops[1] if ops[0] == nlat else ops[0]
+                    if oth not in refs[other_par]:
+                        bad = "the other operand is not NL of the %s report's latitude" % other_par
+                    else:
+                        # (variants can coincide as normal forms: Dlat*60 = 360, so every matching variant is tried)
+                        consistent = False
+                        for k, form in enumerate(refs[other_par]):
+                            if form != oth:
+                                continue
+                            base = refs[other_par][k - 1] if k % 2 else oth
+                            want_op = "Ge" if k % 2 else "Lt"
+                            wg = [x for x in fg if x.get("b_const") == 270.0 and x.get("a_term") is not None and T.nf(x["a_term"]) == base]
+                            if wg and wg[-1]["op"] == want_op:
+                                consistent = True
+                        if not consistent:
+                            bad = "the %s latitude enters the comparison in a variant (wrapped / unwrapped by 360) that its own `>= 270` test did not select" % other_par
+                if bad:
+                    rep.violation("R5", "guard:NL-equal:operands", "the NL(lat_even) == NL(lat_odd) requirement is not evaluated on the two final latitudes: %s" % bad)
             lo = [g for g in fg if g.get("b_const") == -90.0 and g["op"] in ("Ge",)]
             hi = [g for g in fg if g.get("b_const") == 90.0 and g["op"] in ("Le",)]
             if not lo or not hi:
